@@ -782,7 +782,10 @@ class Pool(BasePool[C]):
                 # some block will be starving with zero connection.
                 need_conns_at_least += 1
             else:
-                if not block.count_conns():
+                if not block.count_conns() and not nwaiters:
+                    # Nothing is connected to, queued on or borrowed from
+                    # this block: it can go.  (A suppressed block that
+                    # still has a waiter must stay.)
                     self._to_drop.append(block)
                     continue
 
@@ -1269,6 +1272,12 @@ class Pool(BasePool[C]):
         try:
             block = self._blocks[dbname]
         except KeyError:
+            return None
+
+        if block.count_waiters():
+            # Somebody is waiting for a connection to this database right
+            # now, so it is not inactive (and it has no idle connection to
+            # prune either: a waiter would have taken it).
             return None
 
         # Mark the block as suppressed, so that nothing will be
